@@ -95,10 +95,14 @@ def persistImages (B : Nat) (syncs : Bytes â†’ Bool) (s : WState) : List Bytes â
     let s2 := if syncs r then flush w.1 else w.1
     w.2 ++ s2.file :: persistImages B syncs s2 t
 
-/-- does the loop body of persistEditLogs (regenerated: calls in order, "guarded:" = inside a nested
-if / switch / loop) sync after every write, unconditionally? -/
+/-- does the loop body of persistEditLogs (regenerated: calls and jumps in order, "guarded:" = inside a nested
+if / switch / loop; "return-err" = the error exits, which abort the commit) sync after every write on every
+path that goes on: Write, then Sync, both unguarded, and no continue / break / goto / success-return anywhere -/
+def persistRelevant : List String :=
+  ["writer.Write", "writer.Sync", "guarded:writer.Write", "guarded:writer.Sync",
+   "continue", "break", "goto", "return-nil", "guarded:continue", "guarded:break", "guarded:goto", "guarded:return-nil"]
+
 def syncsEveryRecord (steps : List String) : Bool :=
-  steps.filter (fun c => c = "writer.Write" âˆ¨ c = "writer.Sync" âˆ¨ c = "guarded:writer.Write" âˆ¨ c = "guarded:writer.Sync")
-    == ["writer.Write", "writer.Sync"]
+  steps.filter (fun c => persistRelevant.contains c) == ["writer.Write", "writer.Sync"]
 
 end LinVerif.Kv.BW
